@@ -12,8 +12,9 @@
 (* `Probe` is the user writing into the result.  The properties (AliasOps: InputsUntouched,       *)
 (* NoAlias + write probe, IdentityKept) are ACTION properties over every step; the same operators *)
 (* judge the observations of the real code in Aliasing_Trace.tla.                                 *)
-(* MUT selects deliberately broken mechanisms (negative twins); PERLIN = "asis" is the mechanism  *)
-(* perlin has in the code today (writes into the template and returns it).                        *)
+(* MUT selects deliberately broken mechanisms (negative twins).  PERLIN = "fixed" is perlin's      *)
+(* mechanism (fresh array of the template's shape, /repo c6e6981); PERLIN = "asis" is the one it   *)
+(* had before (writes into the template and returns it) and is kept only as a negative twin.       *)
 EXTENDS AliasOps
 
 CONSTANTS DT,        \* dtypes of the initial rasters, e.g. {"int32","float32","float64"}
